@@ -203,7 +203,7 @@ FF == {[nan |-> n, inf |-> i, whole |-> w, tr |-> t, us |-> 1500000, usok |-> u,
 TT == [t |-> <<0, 5>>, n |-> 7, g |-> "time.Time"]
 SF == {[s |-> "x", bi |-> bi, biv |-> bv, pi |-> FALSE, pf |-> pf, pfrange |-> pr, pfv |-> <<"3.5", "3.5", 64>>, pff |-> ff, pf32 |-> "3.5",
         pt |-> pt, ptt |-> TT, bx |-> bx, bv |-> TRUE] :
-          bi \in 0..2, bv \in {<<0, 3>>, <<0, 9, 2, 2, 3, 3, 7, 2, 0, 3, 6, 8, 5, 4, 7, 7, 5, 8, 0, 8>>}, pf \in 0..2, pr \in {0, 1},
+          bi \in 0..2, bv \in {<<0, 3>>, <<0, 9, 2, 2, 3, 3, 7, 2, 0, 3, 6, 8, 5, 4, 7, 7, 5, 8, 0, 8>>}, pf \in 0..2, pr \in {0, 1, 0 - 1},
           ff \in {f \in FF : f.usok /\ ~f.inf}, pt \in BOOLEAN, bx \in 0..3}
 MCVals == {[nul |-> 0], [b |-> TRUE, g |-> "bool"], [b |-> FALSE, g |-> "gen.Bool"], [i |-> <<0, 3>>, g |-> "int8"], [i |-> <<0, 3>>, g |-> "int64"],
            [i |-> Zero, g |-> "uint"], [i |-> <<0, 9, 2, 2, 3, 3, 7, 2, 0, 3, 6, 8, 5, 4, 7, 7, 5, 8, 0, 8>>, g |-> "uint64"], [i |-> MinI64, g |-> "int64"],
@@ -241,7 +241,7 @@ TimeArith == /\ TimeOfNs(<<0, 5>>) = [t |-> <<0, 0>>, n |-> 5]
              /\ TimeOfNs(<<1, 5>>) = [t |-> <<1, 1>>, n |-> 999999995]
              /\ TimeOfNs(<<0, 1, 5, 0, 0, 0, 0, 0, 0, 0, 0>>) = [t |-> <<0, 1>>, n |-> 500000000]
              /\ TimeOfNs(<<1, 1, 0, 0, 0, 0, 0, 0, 0, 0, 0>>) = [t |-> <<1, 1>>, n |-> 0]
-             /\ TimeOfNs(<<1, 9, 9, 9, 9, 9, 9, 9, 9, 9, 9, 1>>) = [t |-> <<1, 1, 0, 0>>, n |-> 999999999]
+             /\ TimeOfNs(<<1, 9, 9, 9, 9, 9, 9, 9, 9, 9, 9, 1>>) = [t |-> <<1, 1, 0, 0>>, n |-> 9]
              /\ TimeOfNs(Zero) = [t |-> <<0, 0>>, n |-> 0]
              /\ InI64(MaxI64) /\ InI64(MinI64) /\ ~InI64(<<0, 9, 2, 2, 3, 3, 7, 2, 0, 3, 6, 8, 5, 4, 7, 7, 5, 8, 0, 8>>) /\ InI64(Zero) /\ DLess(<<1, 1>>, Zero)
 =============================================================================
